@@ -30,6 +30,7 @@ type Call struct {
 // their own lock.
 type Counter struct {
 	G     *Gate // optional: parks / records accesses for the lock-exclusion probe
+	B     *Bomb // optional: kills the "process" before external call number At+1
 	mu    sync.Mutex
 	N     int
 	Fault int
@@ -44,6 +45,7 @@ func (c *Counter) Reset(fault int) {
 
 // tick counts one call and says whether it must fail.
 func (c *Counter) tick(verb, res, name string) bool {
+	c.B.Check()
 	c.G.Hit("client", verb+" "+res+" "+name)
 	c.mu.Lock()
 	defer c.mu.Unlock()
@@ -58,6 +60,38 @@ func (c *Counter) Calls() []Call {
 	defer c.mu.Unlock()
 	return append([]Call(nil), c.Log...)
 }
+
+// Bomb simulates the death of the process between two external calls: the decorators of the clientsets and the
+// provider call Check at the entry of every call; call number At+1 (counting apiserver calls and provider requests
+// together, in the order the code makes them) never happens - Check panics with CrashPanic instead.
+type Bomb struct {
+	mu    sync.Mutex
+	Armed bool
+	At, N int
+}
+
+// CrashPanic is the panic value of a simulated process death.
+const CrashPanic = "plugin-crash-injected"
+
+func (b *Bomb) Check() {
+	if b == nil {
+		return
+	}
+	b.mu.Lock()
+	if !b.Armed {
+		b.mu.Unlock()
+		return
+	}
+	b.N++
+	boom := b.N > b.At
+	b.mu.Unlock()
+	if boom {
+		panic(CrashPanic)
+	}
+}
+
+func (b *Bomb) Arm(at int) { b.mu.Lock(); b.Armed, b.At, b.N = true, at, 0; b.mu.Unlock() }
+func (b *Bomb) Disarm()    { b.mu.Lock(); b.Armed = false; b.mu.Unlock() }
 
 // ---- kubernetes.Interface decorator ----
 
